@@ -676,3 +676,51 @@ impl FsCacheReqHandler for NullCache {
         Ok(())
     }
 }
+
+/// With fuse-backend-rs's async-io feature every asynchronous operation of the scripted filesystem is
+/// the synchronous one (same log entry, same scripted result), so that the two request paths of the
+/// server can be compared on equal terms.
+#[cfg(feature = "async")]
+mod async_impl {
+    use super::*;
+    use async_trait::async_trait;
+    use fuse_backend_rs::api::filesystem::{AsyncFileSystem, AsyncZeroCopyReader, AsyncZeroCopyWriter};
+
+    #[async_trait]
+    impl AsyncFileSystem for ScriptedFs {
+        async fn async_lookup(&self, ctx: &Context, parent: u64, name: &CStr) -> io::Result<Entry> {
+            self.lookup(ctx, parent, name)
+        }
+        async fn async_getattr(&self, ctx: &Context, inode: u64, handle: Option<u64>) -> io::Result<(stat64, Duration)> {
+            self.getattr(ctx, inode, handle)
+        }
+        async fn async_setattr(&self, ctx: &Context, inode: u64, attr: stat64, handle: Option<u64>, valid: SetattrValid) -> io::Result<(stat64, Duration)> {
+            self.setattr(ctx, inode, attr, handle, valid)
+        }
+        async fn async_open(&self, ctx: &Context, inode: u64, flags: u32, fuse_flags: u32) -> io::Result<(Option<u64>, OpenOptions)> {
+            self.open(ctx, inode, flags, fuse_flags).map(|(h, o, _)| (h, o))
+        }
+        async fn async_create(&self, ctx: &Context, parent: u64, name: &CStr, args: CreateIn) -> io::Result<(Entry, Option<u64>, OpenOptions)> {
+            self.create(ctx, parent, name, args).map(|(e, h, o, _)| (e, h, o))
+        }
+        async fn async_read(&self, ctx: &Context, inode: u64, handle: u64, w: &mut (dyn AsyncZeroCopyWriter + Send), size: u32, offset: u64,
+                            lock_owner: Option<u64>, flags: u32) -> io::Result<usize> {
+            let w2: &mut dyn ZeroCopyWriter = w;
+            self.read(ctx, inode, handle, w2, size, offset, lock_owner, flags)
+        }
+        async fn async_write(&self, ctx: &Context, inode: u64, handle: u64, r: &mut (dyn AsyncZeroCopyReader + Send), size: u32, offset: u64,
+                             lock_owner: Option<u64>, delayed_write: bool, flags: u32, fuse_flags: u32) -> io::Result<usize> {
+            let r2: &mut dyn ZeroCopyReader = r;
+            self.write(ctx, inode, handle, r2, size, offset, lock_owner, delayed_write, flags, fuse_flags)
+        }
+        async fn async_fsync(&self, ctx: &Context, inode: u64, datasync: bool, handle: u64) -> io::Result<()> {
+            self.fsync(ctx, inode, datasync, handle)
+        }
+        async fn async_fallocate(&self, ctx: &Context, inode: u64, handle: u64, mode: u32, offset: u64, length: u64) -> io::Result<()> {
+            self.fallocate(ctx, inode, handle, mode, offset, length)
+        }
+        async fn async_fsyncdir(&self, ctx: &Context, inode: u64, datasync: bool, handle: u64) -> io::Result<()> {
+            self.fsyncdir(ctx, inode, datasync, handle)
+        }
+    }
+}
